@@ -233,6 +233,30 @@ def _val(v):
     return v
 
 
+def _budgeted_integrator(budget=5000):
+    """The shipped integrator with a bound on the number of right-hand-side evaluations.
+
+    Some edited models blow up in finite time before t=0.25; scipy then grinds on NaN steps without ever returning.
+    That is not what C03 is about: the query counts as one that failed (deterministically, by evaluation count).
+    """
+    from mxlpy.integrators import Scipy
+
+    class Budgeted(Scipy):
+        def __post_init__(self):
+            super().__post_init__()
+            inner, n = self.rhs, [0]
+
+            def rhs(t, y):
+                n[0] += 1
+                if n[0] > budget:
+                    raise RuntimeError("evaluation budget of the harness used up")
+                return inner(t, y)
+
+            self.rhs = rhs
+
+    return Budgeted
+
+
 def apply_op(m, op):
     """Apply one operation to the real model. Returns None or raises what the library raises."""
     import pandas as pd
@@ -271,7 +295,7 @@ def apply_op(m, op):
                 # using the model: a short simulation whose result views are read (they evaluate the model)
                 from mxlpy import Simulator
 
-                res = Simulator(m).simulate(0.25, steps=2).get_result().unwrap_or_err()
+                res = Simulator(m, integrator=_budgeted_integrator()).simulate(0.25, steps=2).get_result().unwrap_or_err()
                 res.variables  # noqa: B018
                 res.fluxes  # noqa: B018
         except Exception:  # noqa: BLE001 - a query that fails is still a query
